@@ -172,34 +172,104 @@ func allConc(args []value) bool {
 	return true
 }
 
+// sprintfModel formats with a concrete format string; string arguments may have symbolic bytes
+// (spliced as they are for %s and %v; %q adds plain quotes without escaping — an approximation that
+// only matters for message texts, which no check inspects). A symbolic format string is returned
+// unformatted (approximation, same remark). Symbolic integers render as "?".
 func sprintfModel(e *Engine, args []value) value {
-	format := args[0].(string)
+	format, ok := args[0].(string)
+	if !ok {
+		return args[0]
+	}
 	var va []value
 	if len(args) > 1 && args[1] != nil {
 		va = args[1].([]value)
 	}
-	goArgs := make([]interface{}, len(va))
-	for i, a := range va {
+	allConc := true
+	for _, a := range va {
+		if isSymbolic(a) {
+			allConc = false
+		}
+	}
+	toGo := func(a value) interface{} {
 		itf := a.(iface)
 		switch v := itf.v.(type) {
 		case string:
-			goArgs[i] = v
+			return v
 		case uint64:
 			bits, signed, ok := intInfo(itf.t)
 			if ok && signed {
-				goArgs[i] = sext(v, bits)
-			} else {
-				goArgs[i] = v
+				return sext(v, bits)
 			}
+			return v
 		case bool, float64:
-			goArgs[i] = v
-		case *symv, *symstr:
-			goArgs[i] = "?"
+			return v
+		case *symv, *symstr, symfloat:
+			return "?"
+		case iface:
+			if v.t == errorT || v.t == runtimeErrT {
+				if s, ok := v.v.(string); ok {
+					return s
+				}
+			}
+			return "<iface>"
 		default:
-			goArgs[i] = fmt.Sprintf("<%T>", v)
+			if itf.t == errorT || itf.t == runtimeErrT {
+				return v
+			}
+			return fmt.Sprintf("<%T>", v)
 		}
 	}
-	return fmt.Sprintf(format, goArgs...)
+	if allConc {
+		goArgs := make([]interface{}, len(va))
+		for i, a := range va {
+			goArgs[i] = toGo(a)
+		}
+		return fmt.Sprintf(format, goArgs...)
+	}
+	var out []value
+	ai := 0
+	for i := 0; i < len(format); i++ {
+		c := format[i]
+		if c != '%' || i+1 >= len(format) {
+			out = append(out, uint64(c))
+			continue
+		}
+		// collect the verb (flags/width are passed through to fmt for concrete arguments)
+		j := i + 1
+		for j < len(format) && (format[j] == '+' || format[j] == '-' || format[j] == '#' || format[j] == ' ' || format[j] == '0' || format[j] == '.' || (format[j] >= '1' && format[j] <= '9')) {
+			j++
+		}
+		if j >= len(format) {
+			out = append(out, strBytes(format[i:])...)
+			break
+		}
+		verb := format[j]
+		spec := format[i : j+1]
+		i = j
+		if verb == '%' {
+			out = append(out, uint64('%'))
+			continue
+		}
+		if ai >= len(va) {
+			out = append(out, strBytes("%!"+string(verb)+"(MISSING)")...)
+			continue
+		}
+		a := va[ai]
+		ai++
+		if ss, isSym := a.(iface).v.(*symstr); isSym && (verb == 's' || verb == 'v' || verb == 'q') {
+			if verb == 'q' {
+				out = append(out, uint64('"'))
+			}
+			out = append(out, ss.b...)
+			if verb == 'q' {
+				out = append(out, uint64('"'))
+			}
+			continue
+		}
+		out = append(out, strBytes(fmt.Sprintf(spec, toGo(a)))...)
+	}
+	return mkStr(out)
 }
 
 var overrides = map[string]extFn{
@@ -324,7 +394,7 @@ var natives = map[string]extFn{
 		return tuple{ok, iface{}}
 	},
 	"fmt.Sprintf": func(e *Engine, _ *frame, _ *ssa.Function, a []value) value { return sprintfModel(e, a) },
-	"fmt.Errorf":  func(e *Engine, _ *frame, _ *ssa.Function, a []value) value { return mkError(sprintfModel(e, a).(string)) },
+	"fmt.Errorf":  func(e *Engine, _ *frame, _ *ssa.Function, a []value) value { return iface{t: errorT, v: sprintfModel(e, a)} },
 	"strings.NewReplacer": func(e *Engine, _ *frame, _ *ssa.Function, a []value) value {
 		var ss []string
 		for _, v := range a[0].([]value) {
@@ -472,26 +542,48 @@ var natives = map[string]extFn{
 		return strconv.Itoa(int(sext(a[0].(uint64), 64)))
 	},
 	"strconv.ParseInt": func(e *Engine, _ *frame, _ *ssa.Function, a []value) value {
-		s := e.needStr(a[0], "strconv.ParseInt")
-		v, err := strconv.ParseInt(s, int(a[1].(uint64)), int(a[2].(uint64)))
-		if err != nil {
-			return tuple{uint64(v), mkError(err.Error())}
+		base, bits := int(a[1].(uint64)), int(a[2].(uint64))
+		if s, ok := a[0].(string); ok {
+			v, err := strconv.ParseInt(s, base, bits)
+			if err != nil {
+				return tuple{uint64(v), mkError(err.Error())}
+			}
+			return tuple{uint64(v), iface{}}
 		}
-		return tuple{uint64(v), iface{}}
+		if (base != 10 && base != 16) || bits != 64 {
+			e.unsupported("strconv.ParseInt on a symbolic string with base/bitSize outside the model")
+		}
+		v, ok := e.mParseInt(strBytes(a[0]), base, true)
+		if !ok {
+			return tuple{uint64(0), mkError("strconv.ParseInt: invalid syntax")}
+		}
+		return tuple{v, iface{}}
 	},
 	"strconv.ParseUint": func(e *Engine, _ *frame, _ *ssa.Function, a []value) value {
-		s := e.needStr(a[0], "strconv.ParseUint")
-		v, err := strconv.ParseUint(s, int(a[1].(uint64)), int(a[2].(uint64)))
-		if err != nil {
-			return tuple{v, mkError(err.Error())}
+		base, bits := int(a[1].(uint64)), int(a[2].(uint64))
+		if s, ok := a[0].(string); ok {
+			v, err := strconv.ParseUint(s, base, bits)
+			if err != nil {
+				return tuple{v, mkError(err.Error())}
+			}
+			return tuple{v, iface{}}
+		}
+		if (base != 10 && base != 16) || bits != 64 {
+			e.unsupported("strconv.ParseUint on a symbolic string with base/bitSize outside the model")
+		}
+		v, ok := e.mParseInt(strBytes(a[0]), base, false)
+		if !ok {
+			return tuple{uint64(0), mkError("strconv.ParseUint: invalid syntax")}
 		}
 		return tuple{v, iface{}}
 	},
 	"strconv.ParseFloat": func(e *Engine, _ *frame, _ *ssa.Function, a []value) value {
-		s := e.needStr(a[0], "strconv.ParseFloat")
-		v, err := strconv.ParseFloat(s, int(a[1].(uint64)))
-		if err != nil {
-			return tuple{v, mkError(err.Error())}
+		if int(a[1].(uint64)) != 64 {
+			e.unsupported("strconv.ParseFloat bitSize != 64")
+		}
+		v, ok := e.mParseFloat(a[0])
+		if !ok {
+			return tuple{float64(0), mkError("strconv.ParseFloat: invalid syntax or out of range")}
 		}
 		return tuple{v, iface{}}
 	},
@@ -507,7 +599,15 @@ var natives = map[string]extFn{
 	},
 	"(*regexp.Regexp).MatchString": func(e *Engine, _ *frame, _ *ssa.Function, a []value) value {
 		n := (*a[0].(*value)).(*native)
-		return n.obj.(*regexp.Regexp).MatchString(e.needStr(a[1], "regexp.MatchString"))
+		re := n.obj.(*regexp.Regexp)
+		if s, ok := a[1].(string); ok {
+			return re.MatchString(s)
+		}
+		if re.String() == hexFloatPattern {
+			return e.mHexFloatRe(strBytes(a[1]))
+		}
+		e.unsupported("regexp.MatchString with symbolic string: " + re.String())
+		return nil
 	},
 	"math.Pow": func(e *Engine, _ *frame, _ *ssa.Function, a []value) value {
 		return math.Pow(a[0].(float64), a[1].(float64))
